@@ -237,6 +237,7 @@ def LFile.lines (f : LFile) : Except Err (List Line) := do
   let recs ← f.mapM fun kv => match kv.2 with
     | .raw ls => pure ls
     | .parsed r => r.lines
+  if !noDelimLines recs then .error serErr else
   pure (joinRecords recs)
 
 end BiotiteModel.C18
